@@ -20,11 +20,14 @@ import RModel.Props.C02ren
                                `C02ren.SiblingDestsDistinct`; `shared_destination_refused` is the other direction;
    * `same_style_name`         name = prefix ++ key ++ suffix with a single occurrence of the key that is found first
                                ↦ prefix ++ value ++ suffix (key/value = the two terms rendered in one style);
-   * `apply_places_everything` an accepted plan for a well-formed tree whose destinations are free on disk
-                               satisfies all five guards of `C02ren.renamePhase_ok`: STEP 3 succeeds, every node
-                               ends at `finalPath rs q`, nothing else moves.
-  `C08_full` is false today; the five `C08_witness_*` theorems are the kernel-evaluated counterexamples, each
-  replayed on the real binary by `checks/c08.py` (corpus/C08).
+   * `sources_distinct_any_roots`  since 4d2e5a7 (`dedup_renames`) no node is scheduled twice whatever the search roots
+                               (nested, repeated); `dedup_keeps_every_node`: and none is lost;
+   * `apply_places_everything` an accepted plan for a well-formed tree and ANY list of search roots whose
+                               destinations are free on disk satisfies all five guards of `C02ren.renamePhase_ok`:
+                               STEP 3 succeeds, every node ends at `finalPath rs q`, nothing else moves.
+  `C08_full` is false today (`C08_full_false`); the four `C08_witness_*` theorems are the kernel-evaluated
+  counterexamples, each replayed on the real binary by `checks/c08.py` (corpus/C08);
+  `overlapping_roots_before_and_after_fix` records the defect repaired by 4d2e5a7 on the loop without `dedup_renames`.
   File-name coercion (`applyCoercion`) enters the general theorems through the contract `CoerceSafe`
   (its result is a usable file name), which is checked differentially; concrete instances are evaluated.
 -/
@@ -252,53 +255,86 @@ theorem slashFree_entriesOf (t : Tree) (root : Path) (h : ∀ e ∈ t, ∀ c ∈
   obtain ⟨x, hx, rfl⟩ := List.mem_map.1 he
   exact h x (List.mem_filter.1 hx).1
 
-/-- the guards of `C02ren.renamePhase_ok` hold for every plan the planner accepts for one search root -/
-theorem accepted_guards (T : Tables) (o : Opts) (vmap : List VEntry) (t : Tree) (root : Path) (rs : List Ren)
-    (hwf : C02ren.TreeWF t) (hv : GoodVals vmap) (hc : o.coerce = false ∨ CoerceSafe T vmap)
-    (hsl : ∀ e ∈ t, ∀ c ∈ e.1, (47 : UInt8) ∉ c)
-    (hacc : planRenames T o vmap t [root] = .ok rs) :
-    C02ren.LastOnly rs ∧ C02ren.DistinctSources rs ∧ C02ren.KindsOk t rs ∧ C02ren.SiblingDestsDistinct rs := by
-  rcases planRenames_single T o vmap t root rs hacc with hnil | ⟨rs0, hok, hsub⟩
-  · subst hnil
-    refine ⟨?_, List.Pairwise.nil, ?_, ?_⟩
-    · intro _ h; cases h
-    · intro _ h; cases h
-    · intro _ h; cases h
-  · have hsubset := accepted_subset T o vmap _ rs0 hok
-    have hlo0 : C02ren.LastOnly rs0 := fun r hr =>
-      only_last_component T o vmap _ hv hc (slashFree_entriesOf t root hsl) r (hsubset r hr)
-    have hlo : C02ren.LastOnly rs := fun r hr => hlo0 r (hsub.subset hr)
-    have hds0 : C02ren.DistinctSources rs0 := by
-      have hcol := sources_distinct T o vmap _ (entriesOf_distinct t root hwf.1)
-      have hperm := (accepted_perm T o vmap _ rs0 hok).1
-      refine distinct_perm hperm.symm ?_
-      split
-      · exact hcol
-      · exact List.Pairwise.sublist List.filter_sublist hcol
-    have hds : C02ren.DistinctSources rs := List.Pairwise.sublist hsub hds0
-    have hdd := (destinations_distinct T o vmap _ rs0 hok).2
-    have hsd : C02ren.SiblingDestsDistinct rs :=
-      siblingDests_of_distinct hlo (fun r hr r' hr' => hdd r (hsub.subset hr) r' (hsub.subset hr'))
-    refine ⟨hlo, hds, ?_, hsd⟩
-    intro r hr
-    obtain ⟨e, he, hp⟩ := mem_collect.1 (hsubset r (hsub.subset hr))
-    unfold entriesOf at he
-    obtain ⟨x, hx, rfl⟩ := List.mem_map.1 he
-    have hlk := lookup_of_mem hwf.1 (List.mem_filter.1 hx).1
-    obtain ⟨h1, h2, _⟩ := planEntry_some hp
-    simp only at h1 h2
-    rw [h1, hlk, h2]
-    refine ⟨rfl, ?_⟩
-    cases x.2 <;> simp [ekindOf, kindOf, C02ren.isDirNode]
+/-- no search root has a component `.git` (such a root is not walked by an enclosing root) -/
+def NoGitRoots (roots : List Path) : Prop := ∀ root ∈ roots, root.contains [46, 103, 105, 116] = false
 
-/-- COMPOSITION.  Tree `t` well formed, everything below `root` walked, the plan accepted (no conflict) and its
+instance (roots : List Path) : Decidable (NoGitRoots roots) := by unfold NoGitRoots; infer_instance
+
+/-- DISTINCT SOURCES FOR ANY ROOT LIST (since 4d2e5a7, `dedup_renames`): whatever the search roots — nested,
+    repeated, overlapping — no node is scheduled twice … -/
+theorem sources_distinct_any_roots (T : Tables) (o : Opts) (vmap : List VEntry) (t : Tree) (roots : List Path)
+    (b : Bool) (rs : List Ren) (hacc : planRenames T o vmap t roots b = .ok rs) : C02ren.DistinctSources rs :=
+  (planRenames_mem T o vmap t roots b rs hacc).1
+
+/-- … and no node that a root's accepted plan schedules is lost by the de-duplication -/
+theorem dedup_keeps_every_node (T : Tables) (o : Opts) (vmap : List VEntry) (ess : List (List Entry))
+    (raw rs : List Ren) (hraw : planLoop T o vmap ess = .ok raw) (h : planMulti T o vmap ess = .ok rs) :
+    List.Sublist rs raw ∧ ∀ r ∈ raw, ∃ r' ∈ rs, r'.path = r.path := by
+  unfold planMulti at h
+  rw [hraw] at h
+  cases h
+  exact ⟨dedupRens_sublist raw, dedupRens_cover raw⟩
+
+/-- the guards of `C02ren.renamePhase_ok` hold for every plan the planner accepts, for any list of search roots -/
+theorem accepted_guards (T : Tables) (o : Opts) (vmap : List VEntry) (t : Tree) (roots : List Path) (rs : List Ren)
+    (hwf : C02ren.TreeWF t) (hv : GoodVals vmap) (hc : o.coerce = false ∨ CoerceSafe T vmap)
+    (hsl : ∀ e ∈ t, ∀ c ∈ e.1, (47 : UInt8) ∉ c) (hg : NoGitRoots roots)
+    (hacc : planRenames T o vmap t roots = .ok rs) :
+    C02ren.LastOnly rs ∧ C02ren.DistinctSources rs ∧ C02ren.KindsOk t rs ∧ C02ren.SiblingDestsDistinct rs := by
+  obtain ⟨hds, hmem⟩ := planRenames_mem T o vmap t roots false rs hacc
+  -- per rename: the entry it comes from
+  have src : ∀ r ∈ rs, ∃ root ∈ roots, ∃ rs0, planWithSearch T o vmap (entriesOf t root) = .ok rs0 ∧ r ∈ rs0 ∧
+      r.path ≠ root ∧ ∃ e ∈ entriesOf t root, planEntry T o vmap e = some r := by
+    intro r hr
+    obtain ⟨⟨root, hroot, rs0, hok, hr0⟩, hne⟩ := hmem r hr
+    obtain ⟨e, he, hp⟩ := mem_collect.1 (accepted_subset T o vmap _ rs0 hok r hr0)
+    exact ⟨root, hroot, rs0, hok, hr0, hne rfl root hroot, e, he, hp⟩
+  have hlo : C02ren.LastOnly rs := by
+    intro r hr
+    obtain ⟨root, _, rs0, hok, hr0, _, _⟩ := src r hr
+    exact only_last_component T o vmap _ hv hc (slashFree_entriesOf t root hsl) r
+      (accepted_subset T o vmap _ rs0 hok r hr0)
+  have hdd : ∀ r ∈ rs, ∀ r' ∈ rs, r.newPath = r'.newPath → r = r' := by
+    intro r hr r' hr' hnew
+    obtain ⟨A, hA, rsA, hokA, hrA, hneA, eA, heA, hpA⟩ := src r hr
+    obtain ⟨B, hB, rsB, hokB, hrB, hneB, eB, heB, hpB⟩ := src r' hr'
+    have hpar : r.path.dropLast = r'.path.dropLast := by
+      rw [← (hlo r hr).2.2.1, ← (hlo r' hr').2.2.1, hnew]
+    have preA : pre A r.path = true := by rw [(planEntry_some hpA).1]; exact (mem_entriesOf heA).1
+    have preB : pre B r'.path = true := by rw [(planEntry_some hpB).1]; exact (mem_entriesOf heB).1
+    have pA := pre_dropLast preA hneA
+    have pB := pre_dropLast preB hneB
+    rw [hpar] at pA
+    rcases pre_comparable pA pB with hab | hba
+    · -- B lies below A: r' is planned by A's walk as well
+      have hB' : r' ∈ rsA := by
+        rw [mem_accepted hokA]
+        exact ⟨mem_collect.2 ⟨eB, entriesOf_mono hab (hg B hB) heB, hpB⟩, ((mem_accepted hokB r').1 hrB).2⟩
+      exact (destinations_distinct T o vmap _ rsA hokA).2 r hrA r' hB' hnew
+    · have hA' : r ∈ rsB := by
+        rw [mem_accepted hokB]
+        exact ⟨mem_collect.2 ⟨eA, entriesOf_mono hba (hg A hA) heA, hpA⟩, ((mem_accepted hokA r).1 hrA).2⟩
+      exact (destinations_distinct T o vmap _ rsB hokB).2 r hA' r' hrB hnew
+  refine ⟨hlo, hds, ?_, siblingDests_of_distinct hlo hdd⟩
+  intro r hr
+  obtain ⟨root, _, _, _, _, _, e, he, hp⟩ := src r hr
+  obtain ⟨_, x, hx, rfl, _⟩ := mem_entriesOf he
+  have hlk := lookup_of_mem hwf.1 hx
+  obtain ⟨h1, h2, _⟩ := planEntry_some hp
+  simp only at h1 h2
+  rw [h1, hlk, h2]
+  refine ⟨rfl, ?_⟩
+  cases x.2 <;> simp [ekindOf, kindOf, C02ren.isDirNode]
+
+/-- COMPOSITION.  Tree `t` well formed, everything below the search roots walked (any number of roots, nested or
+    repeated ones included), the plan accepted (no conflict) and its
     destinations free on disk (the pre-flight check of `apply_plan`): STEP 3 succeeds, the resulting tree is
     `moveAll rs t` — every node sits at `finalPath rs q`, i.e. its ancestors' renames and its own applied —
     nodes keep content/mode/target, and a path without a renamed prefix has not moved. -/
-theorem apply_places_everything (T : Tables) (o : Opts) (vmap : List VEntry) (t : Tree) (root : Path)
+theorem apply_places_everything (T : Tables) (o : Opts) (vmap : List VEntry) (t : Tree) (roots : List Path)
     (rs : List Ren) (hwf : C02ren.TreeWF t) (hv : GoodVals vmap) (hc : o.coerce = false ∨ CoerceSafe T vmap)
-    (hsl : ∀ e ∈ t, ∀ c ∈ e.1, (47 : UInt8) ∉ c)
-    (hacc : planRenames T o vmap t [root] = .ok rs) (hpre : preflightOk t rs = true) :
+    (hsl : ∀ e ∈ t, ∀ c ∈ e.1, (47 : UInt8) ∉ c) (hg : NoGitRoots roots)
+    (hacc : planRenames T o vmap t roots = .ok rs) (hpre : preflightOk t rs = true) :
     (renamePhase t [] (sortRens rs)).outcome = .ok ∧
     (renamePhase t [] (sortRens rs)).tree = C02ren.moveAll rs t ∧
     (∀ e ∈ t, lookup (C02ren.moveAll rs t) (C02ren.finalPath rs e.1) = lookup t e.1) ∧
@@ -306,7 +342,7 @@ theorem apply_places_everything (T : Tables) (o : Opts) (vmap : List VEntry) (t 
     (∀ q, (∀ r ∈ rs, pre r.path q = false) → C02ren.finalPath rs q = q) ∧
     (∀ r ∈ rs, ∃ c, r.newPath = r.path.dropLast ++ [c] ∧
       C02ren.finalPath rs r.path = C02ren.finalPath rs r.path.dropLast ++ [c]) := by
-  obtain ⟨h1, h2, h4, hsd⟩ := accepted_guards T o vmap t root rs hwf hv hc hsl hacc
+  obtain ⟨h1, h2, h4, hsd⟩ := accepted_guards T o vmap t roots rs hwf hv hc hsl hg hacc
   have h5 : C02ren.DestFree t rs := (C02ren.destFree_iff_preflight t rs h1 hwf).2 ⟨hpre, hsd⟩
   have hok := C02ren.renamePhase_ok t rs h1 h2 hwf h4 h5
   exact ⟨hok.1, hok.2.1, fun e he => C02ren.lookup_after t rs h1 hwf h5 e he, C02ren.nodes_preserved rs t,
@@ -400,8 +436,8 @@ theorem example_apply :
 
 /-- the theorem applied to the example with coercion switched off (no contract needed) -/
 example : (renamePhase exTree [] (sortRens exPlan)).tree = C02ren.moveAll exPlan exTree :=
-  (apply_places_everything T0 { o0 with coerce := false } vm0 exTree [b!"proj"] exPlan (by decide +kernel)
-    (by decide +kernel) (Or.inl rfl) (by decide +kernel) (by decide +kernel) (by decide +kernel)).2.1
+  (apply_places_everything T0 { o0 with coerce := false } vm0 exTree [[b!"proj"]] exPlan (by decide +kernel)
+    (by decide +kernel) (Or.inl rfl) (by decide +kernel) (by decide) (by decide +kernel) (by decide +kernel)).2.1
 
 /-- same-style names in the six name styles, with affix words and extensions (coercion on, real tables) -/
 theorem example_same_style :
@@ -448,19 +484,32 @@ def C08_full : Prop :=
       ∀ v ∈ vmap, ∀ pfx sfx, e.1.getLast? = some (pfx ++ (v.key ++ sfx)) → v.val ≠ v.key →
         ∃ r ∈ rs, r.path = e.1) ∧
     (∀ r ∈ rs, ∀ v ∈ vmap, ∀ pfx sfx, r.path.getLast? = some (pfx ++ (v.key ++ sfx)) →
-      (∀ w ∈ vmap, ∀ k, containsSub ((pfx ++ (v.key ++ sfx)).drop k) w.key = true → k = pfx.length ∧ w = v) →
+      (∀ w ∈ vmap, ∀ k, k ≤ (pfx ++ (v.key ++ sfx)).length →
+        w.key.isPrefixOf ((pfx ++ (v.key ++ sfx)).drop k) = true → k = pfx.length ∧ w = v) →
       r.newPath.getLast? = some (pfx ++ (v.val ++ sfx)))
 
-/-- WITNESS (finding `overlapping_roots_duplicate_renames`): roots `proj` and `proj/sub` — the file below both
-    is scheduled twice; `apply` then fails on the second copy. -/
-theorem C08_witness_overlapping_roots_duplicate_renames :
+/-- BEFORE 4d2e5a7 (finding `overlapping_roots_duplicate_renames`, now repaired): the per-root loop alone — which
+    was the whole plan then — schedules the file below both roots `proj` and `proj/sub` twice, and `apply` fails
+    on the second copy.  With `dedup_renames` the plan has it once and `apply` succeeds. -/
+theorem overlapping_roots_before_and_after_fix :
     let t : Tree := [([b!"proj"], .dir 493), ([b!"proj", b!"sub"], .dir 493),
                      ([b!"proj", b!"sub", b!"foo_bar.txt"], .file b!"x" 420)]
     let r : Ren := ⟨[b!"proj", b!"sub", b!"foo_bar.txt"], [b!"proj", b!"sub", b!"baz_qux.txt"], .file⟩
-    planRenames T0 o0 vm0 t [[b!"proj"], [b!"proj", b!"sub"]] = .ok [r, r] ∧
-    planRenames T0 o0 vm0 t [[b!"proj"], [b!"proj"]] = .ok [r, r] ∧
+    planLoop T0 o0 vm0 ([[b!"proj"], [b!"proj", b!"sub"]].map (entriesOf t)) = .ok [r, r] ∧
     ¬ C02ren.DistinctSources [r, r] ∧
-    (applyPlan t ⟨[], [r, r]⟩).outcome = .renameFailed .ENOTDIR := by decide +kernel
+    (applyPlan t ⟨[], [r, r]⟩).outcome = .renameFailed .ENOTDIR ∧
+    planRenames T0 o0 vm0 t [[b!"proj"], [b!"proj", b!"sub"]] = .ok [r] ∧
+    planRenames T0 o0 vm0 t [[b!"proj"], [b!"proj"]] = .ok [r] ∧
+    planRenames T0 o0 vm0 t [[b!"proj", b!"sub"], [b!"proj"]] = .ok [r] ∧
+    (applyPlan t ⟨[], [r]⟩).outcome = .ok := by decide +kernel
+
+/-- `apply_places_everything` is not vacuous for nested roots: the example tree with the roots `proj`,
+    `proj/foo_bar` and `proj` again gives the same plan (the nested root itself is not renamed: it is a root) -/
+example : ∃ rs, planRenames T0 o0 vm0 exTree [[b!"proj"], [b!"proj", b!"foo_bar"], [b!"proj"]] = .ok rs ∧
+    rs.length = 5 ∧ C02ren.DistinctSources rs ∧ preflightOk exTree rs = true ∧
+    NoGitRoots [[b!"proj"], [b!"proj", b!"foo_bar"], [b!"proj"]] := by
+  refine ⟨exPlan.filter (fun r => r.path != [b!"proj", b!"foo_bar"]), ?_⟩
+  decide +kernel
 
 /-- WITNESS (finding `coercion_restyles_term`): the term in camel / screaming-snake / pascal style next to a word
     attached with `_` is re-rendered in snake style; without coercion it keeps its style. -/
@@ -494,11 +543,14 @@ theorem C08_witness_symlink_to_root_treated_as_root :
        ([b!"proj", b!"sub", b!"foo_bar.txt"], .file b!"x" 420)] [[b!"proj", b!"sub"]] =
     .ok [⟨[b!"proj", b!"sub", b!"foo_bar.txt"], [b!"proj", b!"sub", b!"baz_qux.txt"], .file⟩] := by decide +kernel
 
-/-- the full-strength statement is false today (clause (a), by the overlapping-roots witness) -/
+/-- the full-strength statement is false today: clause (d), by the coercion witness (`my_fooBar.txt`) -/
 theorem C08_full_false : ¬ C08_full := by
   intro h
-  have hw := C08_witness_overlapping_roots_duplicate_renames
-  simp only at hw
-  exact hw.2.2.1 (h T0 o0 vm0 _ [[b!"proj"], [b!"proj", b!"sub"]] _ (by decide +kernel) (by decide +kernel) hw.1).1
+  let t : Tree := [([b!"proj"], .dir 493), ([b!"proj", b!"my_fooBar.txt"], .file b!"x" 420)]
+  let r : Ren := ⟨[b!"proj", b!"my_fooBar.txt"], [b!"proj", b!"my_baz_qux.txt"], .file⟩
+  have hp : planRenames T0 o0 vm0 t [[b!"proj"]] = .ok [r] := by decide +kernel
+  have := (h T0 o0 vm0 t [[b!"proj"]] [r] (by decide +kernel) (by decide +kernel) hp).2.2.2 r (by simp)
+    ⟨b!"fooBar", b!"bazQux", none⟩ (by decide) b!"my_" b!".txt" (by decide +kernel) (by decide +kernel)
+  exact absurd this (by decide +kernel)
 
 end C08
